@@ -57,6 +57,7 @@ struct msg {
 static struct cfg *C;
 static coap_context_t *ctx;
 static coap_session_t *sess[4];
+static int icmp_done; /* the ICMP port-unreachable notice of this execution has been delivered */
 static coap_address_t peer_addr[4];
 static struct msg msgs[MAXMSG];
 static int nmsgs;
@@ -282,6 +283,13 @@ nack_handler(coap_session_t *session, const coap_pdu_t *sent, const coap_nack_re
   vx_observe("t=%llu NACK s%d reason=%d mid=%04x sent=%s", (unsigned long long)ns_now(), s, reason, mid, sent ? "pdu" : "null");
   if (!sent)
     return; /* notification about a stray RST, not the outcome of a message (see DESIGN C06) */
+  if (reason == COAP_NACK_ICMP_ISSUE) {
+    /* advisory: the library passes an ICMP notice on to the application, naming the first message queued for that session; the
+     * message stays queued and its schedule goes on (the statement's outcomes are ACK, RST and TOO_MANY_RETRIES) */
+    if (!icmp_done)
+      vx_fail("nack:icmp-issue-without-icmp", "NACK(ICMP_ISSUE) for mid %04x although no ICMP notice was delivered", mid);
+    return;
+  }
   struct msg *m = find_msg(s, mid);
   if (!m) {
     vx_fail("nack:unknown-message", "NACK reason %d for mid %04x which was never submitted", reason, mid);
@@ -482,7 +490,7 @@ monitor_after_prepare(unsigned ret) {
 /* our own stepper: like ns_step but with the monitor wrapped around prepare and C06-specific alternatives */
 static int
 step(void) {
-  enum { EV_DELIVER, EV_APP, EV_TIMER, EV_TIMER_EARLY, EV_TIMER_LATE, EV_REORDER, EV_DROP, EV_DUP };
+  enum { EV_DELIVER, EV_APP, EV_TIMER, EV_TIMER_EARLY, EV_TIMER_LATE, EV_REORDER, EV_DROP, EV_DUP, EV_ICMP };
   struct {
     int kind, idx;
   } ev[VX_MAXALT];
@@ -521,8 +529,17 @@ step(void) {
         ev[n].kind = EV_DUP, ev[n].idx = j, cost[n++] = 1;
     }
   }
+  /* environment answer: an ICMP port-unreachable notice read from the first session's socket (once per execution).  A datagram
+   * session is not disconnected by it (the notice is advisory): the schedule of every queued message goes on unchanged */
+  if (budget > 0 && !icmp_done && !C->free_drops && n < VX_MAXALT && sess[0])
+    ev[n].kind = EV_ICMP, ev[n].idx = 0, cost[n++] = 1;
   int c = vx_choose(n, cost, "step");
   switch (ev[c].kind) {
+  case EV_ICMP:
+    icmp_done = 1;
+    vx_observe("   ICMP unreachable notice for session 0");
+    ns_icmp_unreachable(coap_session_get_addr_local(sess[0]));
+    break;
   case EV_DELIVER:
     ns_deliver(0);
     break;
@@ -560,6 +577,7 @@ static void
 run(void *arg) {
   C = arg;
   ns_init();
+  icmp_done = 0;
   tearing_down = 0;
   nmsgs = 0;
   script_pos = 0;
